@@ -51,14 +51,17 @@ package operationapplier
 //@ func (p OperationParser) ParseSignedDataForUpdate(compactJWS) (sd, err)
 //@   pure
 //@   ensures [nonnil] err == nil ==> sd != nil
+//@   ensures [key] err == nil ==> sd.UpdateKey != nil
 //
 //@ func (p OperationParser) ParseSignedDataForRecover(compactJWS) (sd, err)
 //@   pure
 //@   ensures [nonnil] err == nil ==> sd != nil
+//@   ensures [key] err == nil ==> sd.RecoveryKey != nil
 //
 //@ func (p OperationParser) ParseSignedDataForDeactivate(compactJWS) (sd, err)
 //@   pure
 //@   ensures [nonnil] err == nil ==> sd != nil
+//@   ensures [key] err == nil ==> sd.RecoveryKey != nil
 //
 //@ func (p OperationParser) ValidateDelta(delta) (err)
 //@   pure
@@ -68,13 +71,16 @@ package operationapplier
 //@   pure
 //@   ensures [nonnil] err == nil ==> suffixData != nil
 
+// a well-formed applier (what New builds): parser and composer are set
+//@ spec func wfApplier(s *Applier) bool = s != nil && s.OperationParser != nil && s.DocumentComposer != nil
+
 // ---------------------------------------------------------------------------
 // C01 / C02 / C09 / C12: the step relation of the state machine, one function
 // per operation type. `let` names the application of a pure callee: the same
 // term the call in the body denotes.
 
 //@ func (s *Applier) Apply(op, rm) (ret, err)
-//@   requires s != nil && op != nil && rm != nil
+//@   requires wfApplier(s) && op != nil && rm != nil
 //@   modifies nothing
 //@   let c := s.applyCreateOperation(op, rm)
 //@   let u := s.applyUpdateOperation(op, rm)
@@ -89,7 +95,7 @@ package operationapplier
 
 //@ func (s *Applier) applyCreateOperation(anchoredOp, rm) (ret, err)
 //@   pure
-//@   requires s != nil && anchoredOp != nil && rm != nil
+//@   requires wfApplier(s) && anchoredOp != nil && rm != nil
 //@   modifies nothing
 //@   let op, perr := s.OperationParser.ParseCreateOperation(anchoredOp.OperationRequest, true)
 //@   let accepted := rm.Doc == nil && perr == nil
@@ -117,7 +123,7 @@ package operationapplier
 
 //@ func (s *Applier) applyUpdateOperation(anchoredOp, rm) (ret, err)
 //@   pure
-//@   requires s != nil && anchoredOp != nil && rm != nil
+//@   requires wfApplier(s) && anchoredOp != nil && rm != nil
 //@   modifies nothing
 //@   let op, perr := s.OperationParser.ParseUpdateOperation(anchoredOp.OperationRequest, true)
 //@   let sd, sderr := s.OperationParser.ParseSignedDataForUpdate(op.SignedData)
@@ -147,7 +153,7 @@ package operationapplier
 
 //@ func (s *Applier) applyRecoverOperation(anchoredOp, rm) (ret, err)
 //@   pure
-//@   requires s != nil && anchoredOp != nil && rm != nil
+//@   requires wfApplier(s) && anchoredOp != nil && rm != nil
 //@   modifies nothing
 //@   let op, perr := s.OperationParser.ParseRecoverOperation(anchoredOp.OperationRequest, true)
 //@   let sd, sderr := s.OperationParser.ParseSignedDataForRecover(op.SignedData)
@@ -179,7 +185,7 @@ package operationapplier
 
 //@ func (s *Applier) applyDeactivateOperation(anchoredOp, rm) (ret, err)
 //@   pure
-//@   requires s != nil && anchoredOp != nil && rm != nil
+//@   requires wfApplier(s) && anchoredOp != nil && rm != nil
 //@   modifies nothing
 //@   let op, perr := s.OperationParser.ParseDeactivateOperation(anchoredOp.OperationRequest, true)
 //@   let sd, sderr := s.OperationParser.ParseSignedDataForDeactivate(op.SignedData)
